@@ -76,6 +76,12 @@ def random_class_configs(tier, seed, n_quick=3000, n_thorough=40000):
                  cfg='SPECIFICATION TSpec\nPOSTCONDITION AllConsumed\nCHECK_DEADLOCK FALSE\n',
                  extra_files={'cterms.json': json.dumps([RT.to_json(t) for t in terms[i:i + 20000]])})
         out.append(c)
+    big = RT.big_class_terms(seed, 150 if tier == 'quick' else 3000)
+    c = class_config('big-class-programs')
+    c.update(module='PregexClassTerms', workers=1, invariants=['AllConsumed'],
+             cfg='SPECIFICATION TSpec\nPOSTCONDITION AllConsumed\nCHECK_DEADLOCK FALSE\n',
+             extra_files={'cterms.json': json.dumps([RT.to_json(t) for t in big])})
+    out.append(c)
     return out
 
 
@@ -99,6 +105,8 @@ def generic(prop, facets, rule, configs_fn, args_tier=None):
     res = run_generated((alg_configs(tier) if prop == 'C07' else []) + configs_fn(tier, seed) + random_class_configs(tier, seed),
                         'harness.judge_class.judge', {'prop': prop, 'facets': sorted(facets)},
                         seeds=seeds, mode='all', batch=200)
+    from . import checks_compose as CC
+    CC.heap_stage(prop, tier, seeds, res)
     st = res.agg.stats
     cov = {'states': res.states, 'transitions': res.transitions, 'traces_validated_against_impl': st.get('cases', 0),
            'evaluations': st.get('cases', 0), 'distinct_nontrivial': st.get('nontrivial', 0), 'rule': rule,
